@@ -474,9 +474,17 @@ fn check_type(ctx: &Ctx, rng: &mut Rng, st: &mut St) {
     let mut shown = t.show(&d);
     let mut consts: garble_lang::GarbleConsts = std::collections::HashMap::new();
     let mut const_decls = String::new();
+    let mut defs_shown = defs_text(&d);
+    let constify_defs = g.rng.chance(1, 2);
     if g.rng.chance(1, 4) {
+      for which in 0..2 {
+        // (0: the parameter type, 1: the struct / enum definitions it names)
+        if which == 1 && !constify_defs {
+            continue;
+        }
+        let source = if which == 0 { shown.clone() } else { defs_shown.clone() };
         let mut out = String::new();
-        let mut rest = shown.as_str();
+        let mut rest = source.as_str();
         while let Some(pos) = rest.find("; ") {
             let after = &rest[pos + 2..];
             let digits: String = after.chars().take_while(|c| c.is_ascii_digit()).collect();
@@ -494,12 +502,20 @@ fn check_type(ctx: &Ctx, rng: &mut Rng, st: &mut St) {
             }
         }
         out.push_str(rest);
-        shown = out;
+        if which == 0 {
+            shown = out;
+        } else {
+            if out != defs_shown {
+                st.counts.inc("identity programs with const-sized arrays inside struct / enum definitions");
+            }
+            defs_shown = out;
+        }
+      }
         if !consts.is_empty() {
             st.counts.inc("identity programs with const-sized arrays in the parameter type");
         }
     }
-    let src = format!("{}{}pub fn main(x: {}, unused: bool) -> {} {{ x }}\n", const_decls, defs_text(&d), shown, shown);
+    let src = format!("{}{}pub fn main(x: {}, unused: bool) -> {} {{ x }}\n", const_decls, defs_shown, shown, shown);
     let prg: Box<GarbleProgram> = match gl::compile_consts(&src, true, false, consts) {
         CompileOutcome::Ok(p) => p,
         CompileOutcome::Rejected(k, m) => {
